@@ -88,6 +88,7 @@ type Frame struct {
 	loopHeadSt map[*ssa.BasicBlock]*State
 	loopHeadVals map[*ssa.BasicBlock]map[string]Val
 	bindings []Val // free variables of a closure
+	callCount map[string]int
 }
 
 type closureInfo struct {
@@ -156,6 +157,7 @@ type Exec struct {
 	stamps    map[string]int
 	reshapeSeen bool
 	lastDynSig *types.Signature
+	probePhis map[string]*ssa.Phi
 }
 
 type probeInfo struct {
@@ -329,6 +331,7 @@ func (x *Exec) newRef(st *State, hint string) string {
 	cur := x.alloc(st)
 	r := x.define(hint+"_ref", SInt, cur)
 	x.setComp(st, "$alloc", SInt, sx("+", cur, "1"))
+	x.recordStore("$alloc", "")
 	x.allocTerms[r] = true
 	return r
 }
@@ -482,7 +485,6 @@ func (x *Exec) preamble() string {
 	b.WriteString("(assert (forall ((s Str)) (! (= (= (str_len s) 0) (= s str_empty)) :pattern ((str_len s)))))\n")
 	b.WriteString(x.prog.prelude)
 	b.WriteString("\n")
-	b.WriteString(x.implementsAxioms())
 	lits := append([]string{}, x.strOrder...)
 	for _, s := range lits {
 		b.WriteString(fmt.Sprintf("(declare-const %s Str)\n(assert (= (str_len %s) %d))\n", x.strLits[s], x.strLits[s], len(s)))
@@ -497,6 +499,7 @@ func (x *Exec) preamble() string {
 	for _, n := range x.ufOrder {
 		b.WriteString(x.uf[n] + "\n")
 	}
+	b.WriteString(x.implementsAxioms())
 	comps := append([]string{}, x.compOrder...)
 	sort.Strings(comps)
 	for _, c := range comps {
